@@ -38,7 +38,7 @@ func (instance) Cleanup(context.Context) error { return nil }
 func (instance) Close(context.Context) error   { return nil }
 
 func (m *module) NewInstance(ctx context.Context) (wasm.Instance, error) { return instance{}, nil }
-func (m *module) Close(ctx context.Context) error                         { return nil }
+func (m *module) Close(ctx context.Context) error                        { return nil }
 
 // callEnv adapts a wasm.Call + argument values to Env.
 type callEnv struct {
